@@ -69,12 +69,23 @@ def check_variant(prog, cls, target, text0=None):
                     raise AssertionError('transformation %s changed the reference value\n%s\n%s'
                                          % (cls, text0, text2))
         st0, b0, d0 = common.compiled_vs(cols, exp, text0, pred, rules0, quirk_prog=prog)
+        labels = ['class:' + cls, 'mode:' + ('all' if target is None else 'one')]
         if st0 != 'ok':
-            # the long/short form itself disagrees with the reference: C01/C02 business
+            # the original form itself disagrees with the reference.  If the other
+            # spelling agrees with it, the two spellings differ: that is C11's business.
+            # If both disagree (or the deviation is a recorded engine quirk) it is
+            # C01/C02's.
+            if st0 == 'fail' and ':quirk:' not in (b0 or ''):
+                st2, b2, d2 = common.compiled_vs(cols, exp, text2, pred, rules2,
+                                                 quirk_prog=prog)
+                if st2 == 'ok':
+                    res.append(('fail', cls + ':original_differs:' + b0,
+                                'variant form (agrees with reference):\n%s\noriginal: %s'
+                                % (text2, d0), pred, labels))
+                    continue
             res.append(('inconclusive', 'base_' + (b0 or st0).split(':')[0], '', pred, []))
             continue
         st2, b2, d2 = common.compiled_vs(cols, exp, text2, pred, rules2, quirk_prog=prog)
-        labels = ['class:' + cls, 'mode:' + ('all' if target is None else 'one')]
         if st2 == 'ok':
             res.append(('ok', None, '', pred, labels + (['nonempty'] if exp else ['empty'])))
         elif st2 == 'inconclusive':
